@@ -158,9 +158,22 @@ func zzvSortedMeta(m map[string]string) []string {
 var zzvMetaOK = ref.MetaString([][2]string{{"TimeBegin", "2024-01-03T00:00:00Z"}, {"TimeEnd", "2024-01-07T00:00:00Z"}, {"Program", "example.com/prog"}, {"Version", "v1.0.0"}, {"GoVersion", "go1.23.5"}, {"GOOS", "linux"}, {"GOARCH", "amd64"}})
 
 // zzvBases are the record sets damage is applied to.
+// zzvCollideN returns n short names that hash to the same bucket.
+func zzvCollideN(n int) []string {
+	out := []string{"k0"}
+	for i := 1; len(out) < n; i++ {
+		name := fmt.Sprintf("k%d", i)
+		if ref.FNV(name) == ref.FNV("k0") {
+			out = append(out, name)
+		}
+	}
+	return out
+}
+
 func zzvBases() map[string][]string {
 	k1, k2 := zzvCollide()
 	return map[string][]string{
+		"five-collide": zzvCollideN(5), // chains long enough for cycles of length 3, 4 and 5
 		"empty":       {},
 		"one":         {"a"},
 		"two-collide": {k1, k2},
